@@ -68,8 +68,11 @@ pub fn sources() -> Vec<String> {
                     for k in 0..variants.len() {
                         let v1 = variants[k];
                         let v2 = variants[(k + 3) % variants.len()];
-                        if g.is_empty() && (v1.contains("'static") || true) {
-                            v.push(format!("{ea}\n#[derive({d})]\n{x}\nenum T{g} {{\n    {v1},\n    {v2},\n}}\n"));
+                        v.push(format!("{ea}\n#[derive({d})]\n{x}\nenum T{g} {{\n    {v1},\n    {v2},\n}}\n"));
+                        if !x.is_empty() {
+                            // the Logos derive in the SECOND (or third) derive attribute
+                            v.push(format!("{x}\n{ea}\n#[derive({d})]\nenum T{g} {{\n    {v1},\n    {v2},\n}}\n"));
+                            v.push(format!("{x}\n#[derive(Clone)]\n{ea}\n#[derive({d})]\n#[derive(Copy)]\nenum T{g} {{\n    {v1},\n    {v2},\n}}\n"));
                         }
                     }
                 }
